@@ -54,7 +54,7 @@ int fault_kind_from_name(const std::string &s) { for (int i = 0; i < F_KIND_MAX;
 
 // ============================================================ attributes
 static uint32_t boundary32(Rng &r) {
-    static const uint32_t B[] = {0, 1, 0x7F, 0x80, 0xFF, 0x100, 0x7FFF, 0x8000, 0xFFFF, 0x10000, 0x7FFFFF, 0x800000, 0xFFFFFF,
+    static const uint32_t B[] = {0, 1, 6, 6, 71, 24, 53, 0x7F, 0x80, 0xFF, 0x100, 0x7FFF, 0x8000, 0xFFFF, 0x10000, 0x7FFFFF, 0x800000, 0xFFFFFF,
                                  0x1000000, 0x7FFFFFFF, 0x80000000u, 0xFFFFFFFFu, 0x000000FF, 0x0000FF00, 0x00FF0000, 0xFF000000u,
                                  0x01020304, 100000, 1000000, 10000000};
     switch (r.below(3)) {
@@ -376,9 +376,11 @@ int lltd_port_get_mtu(void *ctx, size_t *out) {
 int lltd_port_get_icon_image(void **out_data, size_t *out_size) {
     Node *n = g_w->cur;
     if (!n || !out_data || !out_size) return -1;
-    if (getter_fails(n, G_ICON) || !n->attr.icon_avail) { note_getfail(G_ICON); return -1; }
+    // a failing getter may leave its out parameters untouched, cleared, or half filled (size known, buffer not obtained)
+    auto fail = [&]() { int style = (int)(n->cfg.attr_seed % 3); if (style == 1) { *out_data = nullptr; *out_size = 0; } else if (style == 2) { *out_data = nullptr; *out_size = n->attr.icon.size() ? n->attr.icon.size() : 77; } return -1; };
+    if (getter_fails(n, G_ICON) || !n->attr.icon_avail) { note_getfail(G_ICON); return fail(); }
     void *p = ledger_alloc(n->attr.icon.size(), 2);
-    if (!p) return -1;
+    if (!p) return fail();
     if (!n->attr.icon.empty()) memcpy(p, n->attr.icon.data(), n->attr.icon.size());
     *out_data = p; *out_size = n->attr.icon.size();
     return 0;
@@ -386,9 +388,10 @@ int lltd_port_get_icon_image(void **out_data, size_t *out_size) {
 int lltd_port_get_friendly_name(void **out_data, size_t *out_size) {
     Node *n = g_w->cur;
     if (!n || !out_data || !out_size) return -1;
-    if (getter_fails(n, G_FNAME) || !n->attr.fname_avail) { note_getfail(G_FNAME); return -1; }
+    auto fail = [&]() { int style = (int)(n->cfg.attr_seed % 3); if (style == 1) { *out_data = nullptr; *out_size = 0; } else if (style == 2) { *out_data = nullptr; *out_size = n->attr.fname.size() ? n->attr.fname.size() : 33; } return -1; };
+    if (getter_fails(n, G_FNAME) || !n->attr.fname_avail) { note_getfail(G_FNAME); return fail(); }
     void *p = ledger_alloc(n->attr.fname.size(), 3);
-    if (!p) return -1;
+    if (!p) return fail();
     if (!n->attr.fname.empty()) memcpy(p, n->attr.fname.data(), n->attr.fname.size());
     *out_data = p; *out_size = n->attr.fname.size();
     return 0;
@@ -514,6 +517,8 @@ static __attribute__((noinline)) void scribble_stack(uint8_t pattern) {
     __asm__ volatile("" ::: "memory");
 }
 
+static std::string describe_diff(const std::vector<const TxRec *> &a, const std::vector<const TxRec *> &b);
+
 // ============================================================ world
 World::World(const Plan &p) : plan(p), aux(mix64(p.memfill_seed, 77)) {
     g_w = this;
@@ -533,6 +538,15 @@ World::~World() {
     if (g_w == this) g_w = nullptr;
 }
 Mac World::station_mac(int sid) const {
+    if ((plan.mac_seed & 7) == 0) {
+        // one plan in eight: the stations are near twins - identical except for ONE byte (position drawn per plan), so that an
+        // identity comparison that skips or truncates any part of the address confuses them
+        uint64_t x = mix64(plan.mac_seed, 999);
+        Mac m = {{0x02, (uint8_t)(x >> 8), (uint8_t)(x >> 16), (uint8_t)(x >> 24), (uint8_t)(x >> 32), 0x40}};
+        int pos = (int)((plan.mac_seed >> 3) % 6);
+        if (pos == 0) m.a[0] = (uint8_t)(0x02 | ((sid & 0x3F) << 2)); else m.a[pos] = (uint8_t)(m.a[pos] ^ (uint8_t)(sid + 1));
+        return m;
+    }
     uint64_t x = mix64(plan.mac_seed, 1000 + (uint64_t)sid);
     Mac m = {{0x02, (uint8_t)(x >> 8), (uint8_t)(x >> 16), (uint8_t)(x >> 24), (uint8_t)(x >> 32), (uint8_t)sid}};
     return m;
@@ -557,11 +571,12 @@ void World::at(uint64_t t, std::function<void()> fn) {
     e.t = t; e.seq = ++seq; e.type = 2; e.node = -1; e.gen = 0; e.op_index = -1; e.fn = std::move(fn);
     q.push(e);
 }
-int World::make_node(const NodeCfg &c, bool hidden) {
+int World::make_node(const NodeCfg &c, bool hidden, const Attr *same_interface_as) {
     std::unique_ptr<Node> n(new Node());
     n->cfg = c;
     n->attr = make_attr(c.attr_seed, c.wifi);
     n->attr.mac.a[5] = (uint8_t)((n->attr.mac.a[5] & 0xF0) | (nodes.size() & 0x0F));
+    if (same_interface_as) n->attr = *same_interface_as; // a restarted twin: same interface, same address, same attributes
     n->hidden = hidden;
     n->rxbuf = (uint8_t *)malloc(c.mtu);
     memset(n->rxbuf, c.rxfill, c.mtu);
@@ -602,6 +617,23 @@ void World::do_tick(int node) {
     for (auto &tx : tr.txs) { txhash.u64(tx.data.size() | ((uint64_t)tx.channel << 41)); txhash.bytes(tx.data.data(), tx.data.size());
         node_txhash[node].u64(tx.data.size() | ((uint64_t)tx.channel << 41)); node_txhash[node].bytes(tx.data.data(), tx.data.size()); node_txcount[node]++; }
     log.u64(0x71C40000ull + node); log.u64(tr.t);
+    for (auto &tx : tr.txs) if (tx.channel == 1) n.last_periodic_ms = tx.t;
+    // C09: a twin that runs the same flow gets the same tick at the same instant; its periodic Hellos must match
+    if (plan.twin && !n.hidden && n.twin >= 0 && n.twin_full) {
+        Node &t = *nodes[n.twin];
+        TickRec tt;
+        tt.node = n.twin; tt.t = tr.t;
+        cur = &t; curt = &tt; curd = nullptr;
+        handling_base = tr.t; sleep_accum = 0; alloc_index = 0; send_index = 0; ledger_tag = 0;
+        glue_tick(t.glue);
+        curt = nullptr; cur = nullptr;
+        std::vector<const TxRec *> pa, pb;
+        for (auto &x : tr.txs) pa.push_back(&x);
+        for (auto &x : tt.txs) pb.push_back(&x);
+        if (!pa.empty() || !pb.empty()) note("twin_tick_compared_nonempty");
+        std::string why = describe_diff(pa, pb);
+        if (!why.empty()) violate(plan.prop == "C18" ? "C18" : "C09", "post-reset-differs", "after topology Reset, periodic tick: " + why);
+    }
     for (auto m : monitors) m->on_tick(*this, tr);
     for (auto &tx : tr.txs) {
         for (auto m : monitors) m->on_station_rx(*this, tx);
@@ -660,6 +692,24 @@ void World::put_on_wire(const Bytes &f0, int src_station, int src_node, const Op
             if (c == 0 && extra_delay) st.fault_fired[F_DELAY]++;
         }
     }
+}
+
+// describe how two transmit lists differ (C09/C18 twin comparison)
+static std::string describe_diff(const std::vector<const TxRec *> &a, const std::vector<const TxRec *> &b) {
+    if (a.size() != b.size()) return "responder sent " + std::to_string(a.size()) + " frame(s), freshly started twin sent " + std::to_string(b.size());
+    for (size_t i = 0; i < a.size(); i++) {
+        const Bytes &x = a[i]->data, &y = b[i]->data;
+        if (x == y && a[i]->channel == b[i]->channel) continue;
+        if (x.size() == y.size() && x.size() >= 46 && x[wire::OFF_OP] == wire::W_HELLO && a[i]->channel == 1 && b[i]->channel == 1) {
+            bool only_gen = true;
+            for (size_t k = 0; k < x.size(); k++) if (x[k] != y[k] && k != 32 && k != 33) only_gen = false;
+            if (only_gen) { char t[160]; snprintf(t, sizeof t, "periodic Hello differs from the fresh twin's only in the generation field (0x%04x left over vs 0x%04x)", wire::be16(&x[32]), wire::be16(&y[32])); return t; }
+        }
+        size_t k = 0;
+        while (k < x.size() && k < y.size() && x[k] == y[k]) k++;
+        return "frame " + std::to_string(i) + " (opcode " + std::to_string(x.size() > 17 ? x[17] : 0) + (a[i]->channel ? ", periodic" : "") + ") differs from the freshly started twin's at byte offset " + std::to_string(k);
+    }
+    return "";
 }
 
 // continuation state for mapper fetch / query loops
@@ -746,6 +796,7 @@ void World::handle_delivery(int node, const Frame &f, int op_index, const Op *op
     cur = nullptr; curd = nullptr;
     allocfail_k = 0; sendfail_mask = 0; getfail_mask = 0;
     st.deliveries++;
+    for (auto &tx : d.txs) if (tx.channel == 1) n.last_periodic_ms = tx.t;
     if (!n.hidden) {
         for (auto &tx : d.txs) { txhash.u64(tx.data.size() | (tx.refused ? 1ull << 40 : 0) | ((uint64_t)tx.channel << 41)); txhash.bytes(tx.data.data(), tx.data.size());
             node_txhash[node].u64(tx.data.size() | (tx.refused ? 1ull << 40 : 0) | ((uint64_t)tx.channel << 41)); node_txhash[node].bytes(tx.data.data(), tx.data.size()); node_txcount[node]++; }
@@ -783,21 +834,14 @@ void World::handle_delivery(int node, const Frame &f, int op_index, const Op *op
                     cur = nullptr; curd = nullptr;
                     note("twin_compared");
                     std::vector<const TxRec *> a, b;
-                    for (auto &x : d.txs) if (x.channel == 0) a.push_back(&x);
-                    for (auto &x : dt.txs) if (x.channel == 0) b.push_back(&x);
-                    bool same = a.size() == b.size();
-                    for (size_t i = 0; same && i < a.size(); i++) same = a[i]->data == b[i]->data;
+                    for (auto &x : d.txs) if (x.channel == 0 || n.twin_full) a.push_back(&x);
+                    for (auto &x : dt.txs) if (x.channel == 0 || n.twin_full) b.push_back(&x);
                     if (!a.empty() || !b.empty()) note("twin_compared_nonempty");
-                    if (!same) {
-                        char buf[256];
-                        snprintf(buf, sizeof buf, "after topology Reset: responder sent %zu frame(s), freshly started twin sent %zu, or bytes differ (delivery op=%u tos=%u at t=%llu)",
-                                 a.size(), b.size(), d.buf[wire::OFF_OP], d.buf[wire::OFF_TOS], (unsigned long long)d.t);
-                        std::string det = buf;
-                        if (!a.empty() && !b.empty() && a[0]->data != b[0]->data) {
-                            size_t k = 0; while (k < a[0]->data.size() && k < b[0]->data.size() && a[0]->data[k] == b[0]->data[k]) k++;
-                            det += " first differing byte offset " + std::to_string(k);
-                        }
-                        violate(plan.prop == "C18" ? "C18" : "C09", "post-reset-differs", det);
+                    std::string why = describe_diff(a, b);
+                    if (!why.empty()) {
+                        char buf[128];
+                        snprintf(buf, sizeof buf, "after topology Reset, reaction to opcode %u of service %u: ", d.buf[wire::OFF_OP], d.buf[wire::OFF_TOS]);
+                        violate(plan.prop == "C18" ? "C18" : "C09", "post-reset-differs", std::string(buf) + why);
                     }
                 }
             }
@@ -810,9 +854,15 @@ void World::handle_delivery(int node, const Frame &f, int op_index, const Op *op
 void World::after_reset_twin(int node) {
     Node &n = *nodes[node];
     NodeCfg c = n.cfg;
-    c.glue = GLUE_BARE; c.side_esp32 = false; c.side_classifier = false;
-    int t = make_node(c, true);
-    nodes[t]->attr = nodes[node]->attr; // same interface, same configuration as of now
+    // A node of the documented (Darwin) flow gets a twin running the same flow, so that the periodic Hellos are compared as well -
+    // unless it sent a periodic Hello within the last second: the 1 s spacing (C12) then legitimately delays its next one.
+    uint64_t tnow = std::max(now, n.busy_until);
+    bool full = n.cfg.glue == GLUE_DARWIN && n.usable && (n.last_periodic_ms == 0 || n.last_periodic_ms + 1000 < tnow);
+    c.glue = full ? GLUE_DARWIN : GLUE_BARE; c.side_esp32 = false; c.side_classifier = false;
+    n.twin_full = full;
+    if (full) note("twin_full_flow");
+    Attr same = nodes[node]->attr; // same interface, same configuration as of now
+    int t = make_node(c, true, &same);
     nodes[t]->twin_of = node;
     nodes[node]->twin = t;
     note("twin_started");
@@ -844,6 +894,11 @@ void World::pump(uint64_t until) {
 static Mac id_mac(World &w, int64_t id) {
     if (id >= 0 && id < 100) return w.station_mac((int)id);
     if (id >= 100 && id < 200 && (size_t)(id - 100) < w.nodes.size()) return w.nodes[(size_t)(id - 100)]->attr.mac;
+    if (id >= 300 && id < 360 && (size_t)((id - 300) / 6) < w.nodes.size()) { // a foreign station whose address differs from a node's in one byte only
+        Mac m = w.nodes[(size_t)((id - 300) / 6)]->attr.mac;
+        m.a[(id - 300) % 6] ^= 0x10;
+        return m;
+    }
     if (id == -1) return MAC_BCAST;
     return w.synth_mac(id);
 }
@@ -987,7 +1042,15 @@ void World::exec_op(int i) {
     case OP_ATTR:
         if (nodeok(op.a[0])) {
             attr_mutate(nodes[op.a[0]]->attr, (uint64_t)op.a[1], (uint32_t)op.a[2]);
-            if (nodes[op.a[0]]->twin >= 0) { Mac k = nodes[nodes[op.a[0]]->twin]->attr.mac; nodes[nodes[op.a[0]]->twin]->attr = nodes[op.a[0]]->attr; nodes[nodes[op.a[0]]->twin]->attr.mac = k; }
+            if (op.a[2] & 0x20000) { // the interface gets another hardware address (the context stays the same)
+                Rng mr(mix64((uint64_t)op.a[1], 0x3AC));
+                Mac &m = nodes[op.a[0]]->attr.mac;
+                for (auto &c : m.a) c = (uint8_t)mr.next();
+                if (m.a[0] == 0x02 || m.a[0] == 0x06 || m.a[0] == 0xFF) m.a[0] = 0x0A;
+                m.a[5] = (uint8_t)((m.a[5] & 0xF0) | ((size_t)op.a[0] & 0x0F));
+                note("mac_change");
+            }
+            if (nodes[op.a[0]]->twin >= 0) nodes[nodes[op.a[0]]->twin]->attr = nodes[op.a[0]]->attr; // the twin is the same interface
             note("attr_change");
         }
         break;
